@@ -608,10 +608,15 @@ class Proc:
 class Sim:
     DELTA_LIMIT = 20000
 
-    def __init__(self, modules, top, blackboxes=(), inputs=None):
+    def __init__(self, modules, top, blackboxes=(), inputs=None, oob_fill=None, guard=False):
         self.undefined_events = 0      # operations with an undefined (x) result; the harness discards such runs
+        # IEEE 1364-2005 5.2.2: a memory word or bit selected with an out-of-range index reads x.  With oob_fill = 0 or 1
+        # such a read returns all zeros / all ones and is counted, so that a caller can run both fills and see whether
+        # the undefined value reaches an output; with None it is an Undefined event like a division by zero.
+        self.oob_fill = oob_fill
+        self.oob_reads = 0
         self.current = None
-        self.guard = False             # domain guard of property C02 (see check_domain)
+        self.guard = guard             # domain guard of property C02 (see check_domain)
         self.domain_violations = 0
         self.x_as_zero = 0             # constant selects reaching outside the declared range read 0 for those bits
         self.mods = {}
@@ -1210,11 +1215,17 @@ class Sim:
             i = self.eval_self(sc, e[2])
             if s.mem is not None:
                 if not (s.mem_lo <= i <= s.mem_hi):
-                    raise Undefined('memory index out of range')
+                    if self.oob_fill is None:
+                        raise Undefined('memory index out of range')
+                    self.oob_reads += 1
+                    return mask(s.width) if self.oob_fill else 0
                 return s.mem.get(i, 0)
             b = i - s.lsb
             if not (0 <= b < s.width):
-                raise Undefined('bit select out of range')
+                if self.oob_fill is None:
+                    raise Undefined('bit select out of range')
+                self.oob_reads += 1
+                return self.oob_fill
             return (s.value >> b) & 1
         if k == 'part':
             s = self.sig(sc, e[1])
